@@ -94,7 +94,8 @@ def native_replay(unit, replay_path):
     except Exception as e:
         return {'reproduced': None, 'detail': 'cannot write witness input: %r' % (e,)}
     exe = os.path.join(bdir, unit.replay)
-    cmd = ['g++', '-std=c++11', '-O1', '-g', '-fopenmp', '-DAMGCL_VERIF', '-I', X.REPO,
+    cmd = ['g++', '-std=c++11', '-O1', '-g', '-fopenmp', '-DAMGCL_VERIF', '-D_GLIBCXX_ASSERTIONS',   # checked std::vector subscripts in the real library
+           '-I', X.REPO,
            '-I', os.path.join(VERIF, 'replay'), src, '-o', exe]
     if getattr(unit, 'replay_asan', False):
         cmd[1:1] = ['-fsanitize=address,undefined', '-fno-omit-frame-pointer']
